@@ -45,6 +45,9 @@ type Case struct {
 	// History are bundles the process compiles (once) before it first observes this
 	// case: what a process compiled earlier must not influence a later compile.
 	History [][]core.File `json:"history,omitempty"`
+	// Reps, when > 0, is the number of in-process repetitions of the identity order (cases
+	// whose nondeterminism would show only in a fraction of the emissions).
+	Reps int `json:"reps,omitempty"`
 	// NErr is the number of independent planted errors.
 	NErr int `json:"nerr"`
 	// Collide: some message has placeholders with colliding base names.
@@ -109,10 +112,11 @@ func (b *body) template(name string) string {
 // RenderData is the data every template is rendered with.
 func RenderData() map[string]interface{} {
 	return map[string]interface{}{
-		"a": map[string]interface{}{"x": "ax"}, "b": map[string]interface{}{"x": "bx"},
+		"a": map[string]interface{}{"x": "ax", "name": "an"}, "b": map[string]interface{}{"x": "bx", "Name": "bN"},
 		"c": map[string]interface{}{"x": "cx"}, "d": map[string]interface{}{"x": "dx"},
 		"x_1": "x1", "n": 2, "l": []interface{}{1, 2, 3},
 		"m": map[string]interface{}{"k": "v", "j": "w"}, "s": "some <text>\nwith a line",
+		"h": "<b class=\"x\">Tom & 'Jerry'</b>", "name": "n1", "Name": "n2", "NAME": "n3", "name_": "n4", "_name": "n5",
 	}
 }
 
